@@ -520,15 +520,82 @@ def segFindChild (sg : Seg) (name : String) : R (String × Ref) :=
   match sg.byName.lookup n with
   | some r => pure (n, r)
   | none =>
-    match sg.byLong.lookup n with
-    | some k => match sg.byName.lookup k with
-      | some r => pure (k, r)
-      | none => throw .CrashKeyError
+    match (sg.byLong.lookup n).bind (fun k => (sg.byName.lookup k).map (fun r => (k, r))) with
+    | some kr => pure kr      -- `structure_by_longname[long]` is the same dict object as `structure_by_name[k]`
     | none =>
       if sg.inf && validChildName (some n) sg.name then
         pure (n, .leaf (some (if isZField n then "ST" else "varies")))
       else if (T.fields.find? (·.name == n)).isSome then throw .ChildNotValid
       else throw .ChildNotFound
+
+/-- `Field.find_child_reference(name)['name']` for an upper-cased `name` -/
+def fieldFindName (f : Fld) (name : String) : R String :=
+  if isBase T f.dt then
+    if some name == f.dt then pure name else throw .ChildNotFound
+  else if f.dt == some "varies" && validChildName (some name) "varies" then pure name
+  else
+    let n := upper name
+    let inBy := match f.byName with | some l => (l.lookup n).isSome | none => false
+    if inBy then pure n
+    else match f.byLong.lookup n with
+      | some k => pure k
+      | none =>
+        if (T.datatypes.find? (·.name == n)).isNone then throw .ChildNotFound
+        else if f.byName.isSome then throw .ChildNotValid
+        else pure n
+
+/-- datatype of the component named `cn` of field `f` (`structure_by_name[cn]['ref'][2]`) -/
+def compDatatype (f : Fld) (cn : String) : Option String :=
+  match f.byName with
+  | some l => match l.lookup cn with
+    | some (.leaf d) => d
+    | some (.seq _ (some d)) => d
+    | _ => none
+  | none => none
+
+/-- sub-structure of the component named `cn` -/
+def compRows (f : Fld) (cn : String) : Option (List Row) :=
+  match f.byName with
+  | some l => match l.lookup cn with
+    | some (.seq rows _) => some rows
+    | _ => none
+  | none => none
+
+/-- `Field._do_traversal` name resolution: a child name, a long name, or a positional path
+    `<SEG>_<i>_<j>[_<k>]`; result = (component name, optional subcomponent name) -/
+def fieldTraverse (f : Fld) (name : String) : R (String × Option String) :=
+  let nameU := upper name
+  match fieldFindName T f nameU with
+  | .ok n => pure (n, none)
+  | .error .ChildNotFound =>
+    let parts := (splitOn '_' nameU.toList)
+    if parts.length < 3 || parts.length > 4 then throw .ChildNotFound else
+    let pre := String.ofList (parts.getD 0 [] ++ '_' :: parts.getD 1 [])
+    match Num.parseInt (parts.getD 2 []), (if parts.length == 4 then (Num.parseInt (parts.getD 3 [])).map some else some none) with
+    | some ci, some si =>
+      if some pre != f.name then throw .ChildNotFound else
+      let cn : R String :=
+        if isBase T f.dt then
+          (if si.isSome || ci != 1 then throw .ChildNotFound else pure (f.dt.getD ""))
+        else pure (f.dt.getD "None" ++ "_" ++ String.ofList (intStr ci))
+      do
+        let cn ← cn
+        let cn' ← match fieldFindName T f cn with
+          | .ok n => pure n
+          | .error e => throw e
+        match si with
+        | none => pure (cn', none)
+        | some k =>
+          let cdt := compDatatype f cn'
+          let sn := (cdt.getD "None") ++ "_" ++ String.ofList (intStr k)
+          -- the subcomponent must be a row of the component's datatype
+          let ok := if isBase T cdt then false else
+            match compRows f cn' with
+            | some rows => rows.any (·.name == sn)
+            | none => false
+          if ok then pure (cn', some sn) else throw .ChildNotFound
+    | _, _ => throw .ChildNotFound
+  | .error e => throw e
 
 /-- `segment.<name> = "text"` on a segment that has no child of that name yet
     (`ElementList.set` → `parse_child` → `append`) -/
